@@ -1,4 +1,270 @@
 ----------------------------- MODULE RangeSyntax -----------------------------
-EXTENDS Interval
-JRParse(e) == {}
+(***************************************************************************)
+(* npm range texts: abstract syntax (with the spelling choices the crate   *)
+(* accepts), rendering to bytes, npm's documented desugaring to primitive  *)
+(* comparators, the comparator-list meaning with the prerelease rule, and  *)
+(* the postcondition of Range::parse (C01, C03, C17) and of composing      *)
+(* texts with blanks and `||` (C02).                                       *)
+(*                                                                         *)
+(* Transcribed from the node-semver README ("Advanced Range Syntax",       *)
+(* "Range Grammar", "Prerelease Tags"), not from the crate.                *)
+(*                                                                         *)
+(*  component  [t |-> "n", d |-> digits as written] | [t |-> "x", c |-> byte]*)
+(*             | [t |-> "abs"]                                             *)
+(*  partial    [v, M, m, p, pre, bld, nohy]   pre/bld: lists of raw bytes  *)
+(*  comparator [op |-> "" = < <= > >= ~ ~> ^, sp |-> blanks, pa |-> partial]*)
+(*             | [op |-> "hyphen", lo |-> partial, hi |-> partial]         *)
+(*             | [op |-> "garbage", txt |-> bytes]                         *)
+(*  alternative [cs |-> comparators, seps |-> blanks between them]         *)
+(*  range      [alts |-> alternatives, ors |-> [l, r] blanks around `||`]  *)
+(***************************************************************************)
+EXTENDS Interval, VersionText
+
+\* ---------------------------------------------------------------- syntax
+CNum(d) == [t |-> "n", d |-> d]
+CX(c) == [t |-> "x", c |-> c]
+CAbs == [t |-> "abs"]
+IsNumC(c) == c.t = "n"
+PartialOf(M, m, p, pre, bld) == [v |-> FALSE, M |-> M, m |-> m, p |-> p, pre |-> pre, bld |-> bld, nohy |-> FALSE]
+CmpOf(op, pa) == [op |-> op, sp |-> <<>>, pa |-> pa]
+HyphenOf(lo, hi) == [op |-> "hyphen", lo |-> lo, hi |-> hi]
+GarbageOf(txt) == [op |-> "garbage", txt |-> txt]
+AltOf(cs) == [cs |-> cs, seps |-> [i \in 1..(Len(cs) - 1) |-> <<32>>]]
+RangeOf(alts) == [alts |-> alts, ors |-> [i \in 1..(Len(alts) - 1) |-> [l |-> <<>>, r |-> <<>>]]]
+
+\* ---------------------------------------------------------------- rendering
+RECURSIVE JoinRaw(_, _)
+JoinRaw(l, i) == IF i > Len(l) THEN <<>> ELSE (IF i > 1 THEN <<46>> ELSE <<>>) \o l[i] \o JoinRaw(l, i + 1)
+RenderComp(c) == CASE c.t = "n" -> DigitsToBytes(c.d) [] c.t = "x" -> <<c.c>> [] OTHER -> <<>>
+RenderPartial(pa) ==
+  (IF pa.v THEN <<118>> ELSE <<>>) \o RenderComp(pa.M)
+  \o (IF pa.m.t = "abs" THEN <<>> ELSE <<46>> \o RenderComp(pa.m)
+      \o (IF pa.p.t = "abs" THEN <<>> ELSE <<46>> \o RenderComp(pa.p)
+          \o (IF pa.pre = <<>> THEN <<>> ELSE (IF pa.nohy THEN <<>> ELSE <<45>>) \o JoinRaw(pa.pre, 1))
+          \o (IF pa.bld = <<>> THEN <<>> ELSE <<43>> \o JoinRaw(pa.bld, 1))))
+OpBytes(op) == CASE op = "" -> <<>> [] op = "=" -> <<61>> [] op = "<" -> <<60>> [] op = "<=" -> <<60, 61>>
+                 [] op = ">" -> <<62>> [] op = ">=" -> <<62, 61>> [] op = "~" -> <<126>> [] op = "~>" -> <<126, 62>>
+                 [] op = "^" -> <<94>>
+RenderCmp(c) == CASE c.op = "garbage" -> c.txt
+                  [] c.op = "hyphen" -> RenderPartial(c.lo) \o <<32, 45, 32>> \o RenderPartial(c.hi)
+                  [] OTHER -> OpBytes(c.op) \o c.sp \o RenderPartial(c.pa)
+RECURSIVE RenderAltFrom(_, _)
+RenderAltFrom(a, i) == IF i > Len(a.cs) THEN <<>>
+                       ELSE (IF i > 1 THEN a.seps[i - 1] ELSE <<>>) \o RenderCmp(a.cs[i]) \o RenderAltFrom(a, i + 1)
+RenderAlt(a) == RenderAltFrom(a, 1)
+RECURSIVE RenderRangeFrom(_, _)
+RenderRangeFrom(r, i) == IF i > Len(r.alts) THEN <<>>
+                         ELSE (IF i > 1 THEN r.ors[i - 1].l \o <<124, 124>> \o r.ors[i - 1].r ELSE <<>>)
+                              \o RenderAlt(r.alts[i]) \o RenderRangeFrom(r, i + 1)
+RenderRange(r) == RenderRangeFrom(r, 1)
+
+\* ---------------------------------------------------------------- desugaring (npm README)
+Cmp(op, v) == [op |-> op, v |-> v]
+ND(c) == Norm(c.d)
+xM(pa) == ~IsNumC(pa.M)
+xm(pa) == xM(pa) \/ ~IsNumC(pa.m)
+xp(pa) == xm(pa) \/ ~IsNumC(pa.p)
+Vz(M, m, p) == V3(M, m, p)
+Vz0(M, m, p) == V4(M, m, p, <<N0>>)
+ANYC == << Cmp(">=", Vz(Zero, Zero, Zero)) >>      \* documented: * := >=0.0.0
+NONEC == << Cmp("<", Vz0(Zero, Zero, Zero)) >>     \* nothing is below 0.0.0-0
+\* a fully specified partial denotes this version (build metadata is not part of a comparator)
+Full(pa) == V4(ND(pa.M), ND(pa.m), ND(pa.p), IdsOf(pa.pre))
+XRange(pa) == IF xM(pa) THEN ANYC
+              ELSE IF xm(pa) THEN << Cmp(">=", Vz(ND(pa.M), Zero, Zero)), Cmp("<", Vz0(NumSucc(ND(pa.M)), Zero, Zero)) >>
+              ELSE << Cmp(">=", Vz(ND(pa.M), ND(pa.m), Zero)), Cmp("<", Vz0(ND(pa.M), NumSucc(ND(pa.m)), Zero)) >>
+(* Named deviations (known findings; off by default).  A deviation is a precise description of a
+   defect of the implementation that is recorded in /verif/known_findings.json; a failing case is
+   attributed to it only if the specification WITH the deviation reproduces every observation.
+     "LtMajorNoDashZero"  `<M`, `<M.x`, `<M.x.x` desugar to `<M.0.0` instead of `<M.0.0-0`
+                          (src/range.rs primitive(): (LessThan, Partial{minor: None, ..}) arm) *)
+DesugarOpD(op, pa, dev) ==
+  CASE op \in {"", "="} -> IF xp(pa) THEN XRange(pa) ELSE << Cmp("=", Full(pa)) >>
+    [] op = ">"  -> IF xM(pa) THEN NONEC
+                    ELSE IF xm(pa) THEN << Cmp(">=", Vz(NumSucc(ND(pa.M)), Zero, Zero)) >>
+                    ELSE IF xp(pa) THEN << Cmp(">=", Vz(ND(pa.M), NumSucc(ND(pa.m)), Zero)) >>
+                    ELSE << Cmp(">", Full(pa)) >>
+    [] op = ">=" -> IF xM(pa) THEN ANYC
+                    ELSE IF xm(pa) THEN << Cmp(">=", Vz(ND(pa.M), Zero, Zero)) >>
+                    ELSE IF xp(pa) THEN << Cmp(">=", Vz(ND(pa.M), ND(pa.m), Zero)) >>
+                    ELSE << Cmp(">=", Full(pa)) >>
+    [] op = "<"  -> IF xM(pa) THEN NONEC
+                    ELSE IF xm(pa) THEN (IF "LtMajorNoDashZero" \in dev THEN << Cmp("<", Vz(ND(pa.M), Zero, Zero)) >>
+                                         ELSE << Cmp("<", Vz0(ND(pa.M), Zero, Zero)) >>)
+                    ELSE IF xp(pa) THEN << Cmp("<", Vz0(ND(pa.M), ND(pa.m), Zero)) >>
+                    ELSE << Cmp("<", Full(pa)) >>
+    [] op = "<=" -> IF xM(pa) THEN ANYC
+                    ELSE IF xm(pa) THEN << Cmp("<", Vz0(NumSucc(ND(pa.M)), Zero, Zero)) >>
+                    ELSE IF xp(pa) THEN << Cmp("<", Vz0(ND(pa.M), NumSucc(ND(pa.m)), Zero)) >>
+                    ELSE << Cmp("<=", Full(pa)) >>
+    [] op \in {"~", "~>"} -> IF xp(pa) THEN XRange(pa)
+                    ELSE << Cmp(">=", Full(pa)), Cmp("<", Vz0(ND(pa.M), NumSucc(ND(pa.m)), Zero)) >>
+    [] op = "^"  -> IF xM(pa) THEN ANYC
+                    ELSE IF xm(pa) THEN XRange(pa)
+                    ELSE IF xp(pa) THEN (IF ND(pa.M) = Zero THEN XRange(pa)
+                                         ELSE << Cmp(">=", Vz(ND(pa.M), ND(pa.m), Zero)), Cmp("<", Vz0(NumSucc(ND(pa.M)), Zero, Zero)) >>)
+                    ELSE IF ND(pa.M) # Zero THEN << Cmp(">=", Full(pa)), Cmp("<", Vz0(NumSucc(ND(pa.M)), Zero, Zero)) >>
+                    ELSE IF ND(pa.m) # Zero THEN << Cmp(">=", Full(pa)), Cmp("<", Vz0(Zero, NumSucc(ND(pa.m)), Zero)) >>
+                    ELSE << Cmp(">=", Full(pa)), Cmp("<", Vz0(Zero, Zero, NumSucc(ND(pa.p)))) >>
+DesugarOp(op, pa) == DesugarOpD(op, pa, {})
+HyLo(pa) == IF xM(pa) THEN <<>> ELSE IF xm(pa) THEN << Cmp(">=", Vz(ND(pa.M), Zero, Zero)) >>
+            ELSE IF xp(pa) THEN << Cmp(">=", Vz(ND(pa.M), ND(pa.m), Zero)) >> ELSE << Cmp(">=", Full(pa)) >>
+HyHi(pa) == IF xM(pa) THEN <<>> ELSE IF xm(pa) THEN << Cmp("<", Vz0(NumSucc(ND(pa.M)), Zero, Zero)) >>
+            ELSE IF xp(pa) THEN << Cmp("<", Vz0(ND(pa.M), NumSucc(ND(pa.m)), Zero)) >> ELSE << Cmp("<=", Full(pa)) >>
+DesugarHyphen(lo, hi) == LET c == HyLo(lo) \o HyHi(hi) IN IF c = <<>> THEN ANYC ELSE c
+
+\* one written comparator -> list of primitive comparators; garbage -> <<>>
+DesugarD(c, dev) == CASE c.op = "garbage" -> <<>>
+                      [] c.op = "hyphen" -> DesugarHyphen(c.lo, c.hi)
+                      [] OTHER -> DesugarOpD(c.op, c.pa, dev)
+Desugar(c) == DesugarD(c, {})
+IsValidCmp(c) == c.op # "garbage"
+RECURSIVE DesugarAltFrom(_, _, _)
+DesugarAltFrom(a, i, dev) == IF i > Len(a.cs) THEN <<>> ELSE DesugarD(a.cs[i], dev) \o DesugarAltFrom(a, i + 1, dev)
+DesugarAltD(a, dev) == DesugarAltFrom(a, 1, dev)
+DesugarAlt(a) == DesugarAltD(a, {})
+HasValid(a) == \E i \in 1..Len(a.cs) : IsValidCmp(a.cs[i])
+
+\* ---------------------------------------------------------------- meaning (node's testSet)
+Test(c, v) == LET r == VCmp(v, c.v) IN
+  CASE c.op = "="  -> r = 0
+    [] c.op = ">"  -> r = 1
+    [] c.op = ">=" -> r # -1
+    [] c.op = "<"  -> r = -1
+    [] c.op = "<=" -> r # 1
+SatList(cs, v) == /\ \A i \in 1..Len(cs) : Test(cs[i], v)
+                  /\ (IsPre(v) => \E i \in 1..Len(cs) : IsPre(cs[i].v) /\ SameTuple(cs[i].v, v))
+\* an alternative with no valid comparator is dropped (it admits nothing)
+MeansAltD(a, v, dev) == HasValid(a) /\ SatList(DesugarAltD(a, dev), v)
+MeansD(r, v, dev) == \E i \in 1..Len(r.alts) : MeansAltD(r.alts[i], v, dev)
+MeansAlt(a, v) == MeansAltD(a, v, {})
+Means(r, v) == MeansD(r, v, {})
+KnownDeviations == {"LtMajorNoDashZero"}
+
+\* ---------------------------------------------------------------- the crate's representation: one interval per alternative
+IvOf(c) == CASE c.op = "="  -> Iv(Inc(c.v), Inc(c.v))
+             [] c.op = ">"  -> Iv(Exc(c.v), Unb)
+             [] c.op = ">=" -> Iv(Inc(c.v), Unb)
+             [] c.op = "<"  -> Iv(Unb, Exc(c.v))
+             [] c.op = "<=" -> Iv(Unb, Inc(c.v))
+RECURSIVE FoldIv(_, _, _)
+FoldIv(cs, acc, i) == IF i > Len(cs) THEN acc
+                      ELSE FoldIv(cs, Iv(MaxLo(acc.lo, IvOf(cs[i]).lo), MinUp(acc.up, IvOf(cs[i]).up)), i + 1)
+\* <<>> when the conjunction is empty as a cut interval
+Fold(cs) == LET iv == FoldIv(cs, AnyIv, 1) IN New(iv.lo, iv.up)
+FoldAlt(a) == IF HasValid(a) THEN Fold(DesugarAlt(a)) ELSE <<>>
+RECURSIVE FoldRangeFrom(_, _)
+FoldRangeFrom(r, i) == IF i > Len(r.alts) THEN <<>> ELSE FoldAlt(r.alts[i]) \o FoldRangeFrom(r, i + 1)
+FoldRange(r) == FoldRangeFrom(r, 1)
+
+\* nothing at all satisfies the text
+Unsat(r) == MinVersion(FoldRange(r)) = <<>>
+NoValid(r) == \A i \in 1..Len(r.alts) : ~HasValid(r.alts[i])
+MayFail(r) == NoValid(r) \/ Unsat(r)
+
+\* every bound of the desugaring is a representable version (components within MAX_SAFE_INTEGER);
+\* texts whose desugaring overflows (`>900719925474099`) are outside the quantifier of C01
+WfVer(v) == FitsSafe(v.M) /\ FitsSafe(v.m) /\ FitsSafe(v.p)
+WfAlt(a) == LET cs == DesugarAlt(a) IN \A i \in 1..Len(cs) : WfVer(cs[i].v)
+WfRange(r) == \A i \in 1..Len(r.alts) : WfAlt(r.alts[i])
+
+\* versions that were WRITTEN with a prerelease tag in an alternative (for C03); the synthetic `-0`
+\* upper bounds of the desugaring are not written tags
+PaTag(pa) == IF ~xp(pa) /\ pa.pre # <<>> THEN {Full(pa)} ELSE {}
+CmpTags(c) == CASE c.op = "garbage" -> {}
+                [] c.op = "hyphen" -> PaTag(c.lo) \cup PaTag(c.hi)
+                [] OTHER -> PaTag(c.pa)
+Tags(a) == UNION {CmpTags(a.cs[i]) : i \in 1..Len(a.cs)}
+
+\* probe versions for a text: around every bound of its desugaring
+RECURSIVE CmpEnds(_, _)
+CmpEnds(cs, i) == IF i > Len(cs) THEN {} ELSE {cs[i].v} \cup CmpEnds(cs, i + 1)
+AstEnds(r) == UNION {CmpEnds(DesugarAlt(r.alts[i]), 1) : i \in 1..Len(r.alts)}
+
+\* ---------------------------------------------------------------- README examples (pin the transcription)
+D1(n) == FromNat(n)
+PN(a, b, c) == PartialOf(CNum(D1(a)), CNum(D1(b)), CNum(D1(c)), <<>>, <<>>)
+PN2(a, b) == PartialOf(CNum(D1(a)), CNum(D1(b)), CAbs, <<>>, <<>>)
+PN1(a) == PartialOf(CNum(D1(a)), CAbs, CAbs, <<>>, <<>>)
+PX2(a, b) == PartialOf(CNum(D1(a)), CNum(D1(b)), CX(120), <<>>, <<>>)
+PX1(a) == PartialOf(CNum(D1(a)), CX(120), CAbs, <<>>, <<>>)
+PStar == PartialOf(CX(42), CAbs, CAbs, <<>>, <<>>)
+PPre(a, b, c, pre) == PartialOf(CNum(D1(a)), CNum(D1(b)), CNum(D1(c)), pre, <<>>)
+VN(a, b, c) == V3(D1(a), D1(b), D1(c))
+VN0(a, b, c) == V4(D1(a), D1(b), D1(c), <<N0>>)
+beta2 == << <<98, 101, 116, 97>>, <<50>> >>
+VBeta2(a, b, c) == V4(D1(a), D1(b), D1(c), <<TxtId(<<98, 101, 116, 97>>), NumId(D1(2))>>)
+\* hyphen ranges
+ASSUME DesugarHyphen(PN(1, 2, 3), PN(2, 3, 4)) = << Cmp(">=", VN(1, 2, 3)), Cmp("<=", VN(2, 3, 4)) >>
+ASSUME DesugarHyphen(PN2(1, 2), PN(2, 3, 4)) = << Cmp(">=", VN(1, 2, 0)), Cmp("<=", VN(2, 3, 4)) >>
+ASSUME DesugarHyphen(PN(1, 2, 3), PN2(2, 3)) = << Cmp(">=", VN(1, 2, 3)), Cmp("<", VN0(2, 4, 0)) >>
+ASSUME DesugarHyphen(PN(1, 2, 3), PN1(2)) = << Cmp(">=", VN(1, 2, 3)), Cmp("<", VN0(3, 0, 0)) >>
+\* x-ranges
+ASSUME DesugarOp("", PStar) = << Cmp(">=", VN(0, 0, 0)) >>
+ASSUME DesugarOp("", PX1(1)) = << Cmp(">=", VN(1, 0, 0)), Cmp("<", VN0(2, 0, 0)) >>
+ASSUME DesugarOp("", PX2(1, 2)) = << Cmp(">=", VN(1, 2, 0)), Cmp("<", VN0(1, 3, 0)) >>
+ASSUME DesugarOp("", PN1(1)) = DesugarOp("", PX1(1)) /\ DesugarOp("", PN2(1, 2)) = DesugarOp("", PX2(1, 2))
+\* tilde ranges
+ASSUME DesugarOp("~", PN(1, 2, 3)) = << Cmp(">=", VN(1, 2, 3)), Cmp("<", VN0(1, 3, 0)) >>
+ASSUME DesugarOp("~", PN2(1, 2)) = << Cmp(">=", VN(1, 2, 0)), Cmp("<", VN0(1, 3, 0)) >>
+ASSUME DesugarOp("~", PN1(1)) = << Cmp(">=", VN(1, 0, 0)), Cmp("<", VN0(2, 0, 0)) >>
+ASSUME DesugarOp("~", PN(0, 2, 3)) = << Cmp(">=", VN(0, 2, 3)), Cmp("<", VN0(0, 3, 0)) >>
+ASSUME DesugarOp("~", PN2(0, 2)) = << Cmp(">=", VN(0, 2, 0)), Cmp("<", VN0(0, 3, 0)) >>
+ASSUME DesugarOp("~", PN1(0)) = << Cmp(">=", VN(0, 0, 0)), Cmp("<", VN0(1, 0, 0)) >>
+ASSUME DesugarOp("~", PPre(1, 2, 3, beta2)) = << Cmp(">=", VBeta2(1, 2, 3)), Cmp("<", VN0(1, 3, 0)) >>
+\* caret ranges
+ASSUME DesugarOp("^", PN(1, 2, 3)) = << Cmp(">=", VN(1, 2, 3)), Cmp("<", VN0(2, 0, 0)) >>
+ASSUME DesugarOp("^", PN(0, 2, 3)) = << Cmp(">=", VN(0, 2, 3)), Cmp("<", VN0(0, 3, 0)) >>
+ASSUME DesugarOp("^", PN(0, 0, 3)) = << Cmp(">=", VN(0, 0, 3)), Cmp("<", VN0(0, 0, 4)) >>
+ASSUME DesugarOp("^", PPre(1, 2, 3, beta2)) = << Cmp(">=", VBeta2(1, 2, 3)), Cmp("<", VN0(2, 0, 0)) >>
+ASSUME DesugarOp("^", PPre(0, 0, 3, beta2)) = << Cmp(">=", VBeta2(0, 0, 3)), Cmp("<", VN0(0, 0, 4)) >>
+ASSUME DesugarOp("^", PX2(1, 2)) = << Cmp(">=", VN(1, 2, 0)), Cmp("<", VN0(2, 0, 0)) >>
+ASSUME DesugarOp("^", PX2(0, 0)) = << Cmp(">=", VN(0, 0, 0)), Cmp("<", VN0(0, 1, 0)) >>
+ASSUME DesugarOp("^", PN2(0, 0)) = << Cmp(">=", VN(0, 0, 0)), Cmp("<", VN0(0, 1, 0)) >>
+ASSUME DesugarOp("^", PX1(1)) = << Cmp(">=", VN(1, 0, 0)), Cmp("<", VN0(2, 0, 0)) >>
+ASSUME DesugarOp("^", PX1(0)) = << Cmp(">=", VN(0, 0, 0)), Cmp("<", VN0(1, 0, 0)) >>
+\* primitive operators on partials (node-semver's stated intent; `<1.2` -> `<1.2.0-0` is pinned by the crate's own suite)
+ASSUME DesugarOp(">", PN1(1)) = << Cmp(">=", VN(2, 0, 0)) >> /\ DesugarOp(">", PN2(1, 2)) = << Cmp(">=", VN(1, 3, 0)) >>
+ASSUME DesugarOp("<=", PX2(0, 7)) = << Cmp("<", VN0(0, 8, 0)) >> /\ DesugarOp("<", PN2(1, 2)) = << Cmp("<", VN0(1, 2, 0)) >>
+\* prerelease tags: 1.2.3-alpha.7 satisfies >1.2.3-alpha.3, 3.4.5-alpha.9 does not
+alpha(n) == <<TxtId(<<97, 108, 112, 104, 97>>), NumId(D1(n))>>
+ASSUME SatList(<< Cmp(">", V4(D1(1), D1(2), D1(3), alpha(3))) >>, V4(D1(1), D1(2), D1(3), alpha(7)))
+ASSUME ~SatList(<< Cmp(">", V4(D1(1), D1(2), D1(3), alpha(3))) >>, V4(D1(3), D1(4), D1(5), alpha(9)))
+ASSUME SatList(<< Cmp(">", V4(D1(1), D1(2), D1(3), alpha(3))) >>, VN(3, 4, 5))
+\* rendering
+ASSUME RenderRange(RangeOf(<< AltOf(<< CmpOf(">=", PN(1, 2, 3)), CmpOf("<", PN2(2, 0)) >>), AltOf(<< CmpOf("^", PX1(0)) >>) >>))
+         = <<62, 61, 49, 46, 50, 46, 51, 32, 60, 50, 46, 48, 124, 124, 94, 48, 46, 120>>
+
+\* ---------------------------------------------------------------- Range::parse postcondition
+\* the range text has no comparator at all that could be valid: every token is garbage (used when no AST is known)
+JRParse(e) ==
+  LET t == e.text IN
+  \* ---- C17 / C06, for every recorded parse
+     (IF e.out = "err" THEN JErr(t, e.err) \cup Chk(e.err.kind # "MaxLengthError", "C17:kind-maxlength-from-range-parse") ELSE {})
+  \cup Chk(e.us <= 50000 + 100 * Len(t), "C06:time-budget")
+  \cup (IF e.out = "ok" THEN Chk(e.fromstr_eq, "X:fromstr-agrees") ELSE {})
+  \* ---- with a known syntax tree: C01, C03
+  \cup (IF "ast" \in DOMAIN e THEN
+          LET r == e.ast IN
+          IF RenderRange(r) # t THEN {"TOOL:render-mismatch"}
+          ELSE IF ~WfRange(r) THEN {}
+          ELSE IF e.out = "err" THEN
+                 Chk(MayFail(r), "C01:rejected-satisfiable-text")
+            \cup Chk(NoValid(r) => e.err.kind = "NoValidRanges", "C17:kind-novalidranges")
+          ELSE
+            \* only versions of the quantifier: components within MAX_SAFE_INTEGER
+            LET O == SelectSeq(e.obs, LAMBDA o : WfVer(o.v)) IN
+                 (IF \A k \in Idx(O) : O[k].r = Means(r, O[k].v) THEN {}
+                  ELSE LET devs == {d \in KnownDeviations : \A k \in Idx(O) : O[k].r = MeansD(r, O[k].v, {d})} IN
+                       IF devs = {} THEN {"C01:satisfies"} ELSE {"C01:satisfies@" \o d : d \in devs})
+            \cup Chk(\A k \in Idx(O) : O[k].vr = O[k].r, "C01:version-satisfies-agrees")
+            \cup Chk(~NoValid(r), "C01:accepted-without-valid-comparator")
+            \cup (IF Len(r.alts) = 1 /\ Len(e.val) <= 1 THEN
+                    \* C03, phrased as the statement is: given the bounds the crate built
+                    Chk(\A k \in Idx(O) :
+                          O[k].r <=> (RInB(e.val, O[k].v) /\ (~IsPre(O[k].v) \/ \E tg \in Tags(r.alts[1]) : SameTuple(tg, O[k].v))),
+                        "C03:gate-by-written-tags")
+                  ELSE {})
+            \cup Chk(\A k \in Idx(O) : \A j \in Idx(O) : (Key(O[k].v) = Key(O[j].v)) => (O[k].r = O[j].r), "C03:build-ignored")
+        ELSE {})
 =============================================================================
